@@ -112,6 +112,7 @@ def rich_world(rng, d, unresolvable=True):
     hdocs = {H + "h0.json": {"definitions": {"x": leaf2}, "properties": {"v": leaf2, "u": {"$ref": R.STORE_DIR + "s1.json#/definitions/q"}}},
              H + "h1.json": leaf}
     pa, pb = rng.choice([("Item.json", "item.json"), ("t.json?n=1", "t.json?n=2"), ("dir/", "dir"), ("a%41.json", "aA.json")])
+    hdocs[H + "embedded.json"] = {"type": "string"}
     hdocs[H + "pairs/" + pa] = {"type": "integer"}
     hdocs[H + "pairs/" + pb] = {"type": "string"}
     store = {R.STORE_DIR + "s0.json": {idk: R.STORE_DIR + "s0.json", "items": {"$ref": "s1.json#/definitions/q"}},
@@ -149,6 +150,12 @@ def rich_world(rng, d, unresolvable=True):
         "k": {idk: "http://other.example/x/", "$ref": R.ROOT_URL + "#/definitions/leaf"},
         "k2": {"$ref": "#/definitions/deep", idk: R.ROOT_URL},
         "k3": {"items": {idk: "http://other.example/y/", "$ref": R.ROOT_URL + "#/definitions/tree"}},
+        # a subschema that declares (as its id) a URL which a handler serves with OTHER content, and a reference to that
+        # URL elsewhere: what the reference designates must not depend on whether the id-bearing subschema was walked
+        "emb": {idk: H + "embedded.json", "type": ["integer", "null"]},
+        "eref": {"$ref": H + "embedded.json"},
+        "emb2": {"items": {idk: "http://other.example/x/emb2.json", "type": "integer"}},
+        "eref2": {"$ref": "http://other.example/x/emb2.json"},
         "sa": {"$ref": R.STORE_DIR + "v1/doc.json"},
         "sb": {"$ref": R.STORE_DIR + "v2/doc.json"},
         "na": {idk: R.STORE_DIR + "v1/", "properties": {"w": {"$ref": "item.json"}, "v": {"$ref": "doc.json#/definitions/item"}}},
@@ -214,6 +221,10 @@ def rich_world(rng, d, unresolvable=True):
                 out[n] = {"v": ig2.any(1)}
             elif n == "s":
                 out[n] = [ig2.any(1), ig2.any(1)]
+            elif n in ("emb", "eref", "eref2"):
+                out[n] = rng.choice([1, "s", None, 2.5])
+            elif n == "emb2":
+                out[n] = [rng.choice([1, "s"]), rng.choice([1, "s"])]
             elif n in ("sa", "sb", "na", "nb"):
                 out[n] = {"v": rng.choice([1, "s", [], None, ig.any(1)]), "w": rng.choice([1, "s", [], None, ig.any(1)])}
             elif n in ("f", "t"):
@@ -224,7 +235,8 @@ def rich_world(rng, d, unresolvable=True):
             out["extra" + str(rng.randrange(3))] = 1
         return out
     two = [{n: {"v": rng.choice([1, "s", [], None]), "w": rng.choice([1, "s", [], None])}} for n in ("sa", "sb", "na", "nb") if n in keep]
-    insts = [inst() for _ in range(3)] + rng.sample(two, min(len(two), 2)) + [rng.choice([1, "s", [], None])] + \
+    two += [{n: rng.choice([1, "s"])} for n in ("emb", "eref", "eref2") if n in keep] + [{"emb2": [1, "s"]}] * ("emb2" in keep)
+    insts = [inst() for _ in range(3)] + rng.sample(two, min(len(two), 3)) + [rng.choice([1, "s", [], None])] + \
         rng.sample([True, 1, 1.0, False, 0, 0.0, [True], [1], [1.0], [0, False], "1", None], 4)
     refs = ["#/definitions/leaf", "#/definitions/deep", H + "h0.json", H + "h0.json#/definitions/x", H + "h1.json",
             R.STORE_DIR + "s0.json", "#/definitions/nope", H + "missing.json", "#/definitions/deep/properties/x",
